@@ -355,3 +355,32 @@ func verifHarness_C20_dialect(version int, shape int) {
 	verifAssert(err != nil, "C20/Wd/then-error")
 	verifReach("C20/Wd")
 }
+
+// W2: every entry carries its own time: two (three) entries written in a row whose times go BACKWARDS - a log merged
+// from several sources, a clock step - and an entry stamped with the zero time.Time: each timestamp field is the
+// microsecond count of its own entry, whatever came before.
+func verifHarness_C20_own_times() {
+	rec := &frame.VerifRecWriter{}
+	w := &Writer{ByteWriter: rec}
+	verifAssert(w.Initialize() == nil, "C20/W2/init")
+	// (concrete steps: the symbolic version of this arithmetic - every 64-bit time - is harness T / W)
+	d := uint64(500000)
+	base := int64(1700000000000000)
+	times := []int64{base, base - int64(d), -62135596800000000, base - int64(d) - 1}
+	pos := 0
+	for i, us := range times {
+		fr, wire := verifFrame(1, 0)
+		var t time.Time
+		if i != 2 {
+			t = time.UnixMicro(us)
+		}
+		verifAssert(w.Write(&Entry{Time: t, Frame: fr}) == nil, "C20/W2/write-ok")
+		file := rec.Buf()
+		verifAssert(len(file) == pos+8+len(wire), "C20/W2/file-length")
+		if len(file) == pos+8+len(wire) {
+			verifAssert(verifBE64dec(file[pos:pos+8]) == uint64(us), "C20/W2/timestamp-is-the-entrys-own-time")
+		}
+		pos += 8 + len(wire)
+	}
+	verifReach("C20/W2")
+}
